@@ -2,7 +2,7 @@
    Statements only; proofs in proofs/DMRProofs.v.  Model: model/DMR.v - pydap.parsers.dmr over an XML element tree
    (ElementTree itself is outside the model): get_variables, get_named_dimensions, get_dim_names, shape resolution,
    get_maps, get_atomic_attr and the arguments dmr_to_dataset hands to createVariable. *)
-From PydapV Require Import Base Quote QuoteProofs StrLemmas DDS DDSProofs DMR DMRProofs.
+From PydapV Require Import Base Quote QuoteProofs StrLemmas DDS DDSProofs DMR DMRProofs DMRUniq.
 Open Scope nat_scope.
 
 (* A document is a list of items: Dimension, variable (type tag, name, named or unnamed Dim references in any mix, attributes in
@@ -21,6 +21,23 @@ Theorem C11_parse_render : forall dsname items vs,
   parse_dmr (render dsname items) = Some vs.
 Proof. exact parse_render. Qed.
 Print Assumptions C11_parse_render.
+
+(* The no-duplicate premises follow from what a DMR guarantees by construction: within every group (and the root) variable
+   names are pairwise distinct, dimension names are pairwise distinct, sub-group names are pairwise distinct
+   (uniq_items selvar / seldim); the SAME short name in different groups is allowed - fully qualified names are injective. *)
+Theorem C11_fqn_injective : forall p n p' n',
+  Forall (fun x => no_slash x = true) p -> Forall (fun x => no_slash x = true) p' -> ns n -> ns n' ->
+  fqn p n = fqn p' n' -> p = p' /\ n = n'.
+Proof. exact fqn_inj. Qed.
+Print Assumptions C11_fqn_injective.
+
+Theorem C11_parse_render_structural : forall dsname items vs,
+  forallb wf_item items = true -> forallb attrs_ok items = true ->
+  uniq_items selvar items = true -> uniq_items seldim items = true ->
+  decl_vars items [] (s2l "Dataset") items = Some vs ->
+  parse_dmr (render dsname items) = Some vs.
+Proof. exact parse_render_structural. Qed.
+Print Assumptions C11_parse_render_structural.
 
 (* the two collection passes on their own *)
 Theorem C11_variables : forall dsname items,
@@ -54,6 +71,7 @@ Definition ex_doc : list item :=
    IAttr (mkA (s2l "title") (s2l "String") None [VText (s2l "T")])].
 Example C11_ex :
   forallb wf_item ex_doc = true /\ forallb attrs_ok ex_doc = true /\
+  uniq_items selvar ex_doc = true /\ uniq_items seldim ex_doc = true /\
   nodupb (map fst (var_entries [] (s2l "Dataset") ex_doc)) = true /\ nodupb (map fst (decl_dims [] ex_doc)) = true /\
   option_map (map (fun v => (l2s (v_name v), v_shape v, map l2s (v_dims v), option_map l2s (v_path v))))
              (parse_dmr (render (s2l "ds") ex_doc)) =
